@@ -100,9 +100,25 @@ func itemTab(n int) []Item {
 	return t
 }
 
-var intCmps = []string{"nat", "rev", "div9", "mod5", "natbig", "diff"}
-var strCmps = []string{"nat", "rev", "len", "fold", "natbig", "diff"}
-var itemCmps = []string{"nat", "rev", "natbig", "diff"}
+var intCmps = []string{"nat", "rev", "div9", "mod5", "natbig", "diff", "ext"}
+var strCmps = []string{"nat", "rev", "len", "fold", "natbig", "diff", "ext"}
+var itemCmps = []string{"nat", "rev", "natbig", "diff", "ext"}
+
+// natBig: the magnitude of the "natbig" comparator's results. Large enough that the product of two
+// results overflows int64 and wraps to the other sign (3.5e9 squared lies between 2^63 and 2^64).
+const natBig = 3_500_000_003
+
+// extCmp turns a sign into the extreme results math.MinInt / math.MaxInt ("ext" comparators): legal,
+// and -math.MinInt == math.MinInt.
+func extCmp(c int) int {
+	switch {
+	case c < 0:
+		return math.MinInt
+	case c > 0:
+		return math.MaxInt
+	}
+	return 0
+}
 
 func intDom(n int, cmpName string, off int) *Dom[int] {
 	d := &Dom[int]{Elem: "int", CmpName: cmpName, Tab: intTab(n, off), Str: strconv.Itoa}
@@ -116,10 +132,13 @@ func intDom(n int, cmpName string, off int) *Dom[int] {
 		d.Cmp = func(a, b int) int { return cmp.Compare(b, a) }
 		d.Class = strconv.Itoa
 	case "natbig": // a legal comparator that returns values other than -1/0/1
-		d.Cmp = func(a, b int) int { return cmp.Compare(a, b) * (1<<40 + 7) }
+		d.Cmp = func(a, b int) int { return cmp.Compare(a, b) * natBig }
 		d.Class = strconv.Itoa
 	case "diff": // the classic subtraction comparator, made overflow-safe: magnitudes 1..200
 		d.Cmp = intDiff
+		d.Class = strconv.Itoa
+	case "ext":
+		d.Cmp = func(a, b int) int { return extCmp(cmp.Compare(a, b)) }
 		d.Class = strconv.Itoa
 	case "div9":
 		d.Cmp = func(a, b int) int { return cmp.Compare(floorDiv(a, 9), floorDiv(b, 9)) }
@@ -159,10 +178,13 @@ func strDom(n int, cmpName string, off int) *Dom[string] {
 		d.Cmp = func(a, b string) int { return cmp.Compare(b, a) }
 		d.Class = strconv.Quote
 	case "natbig":
-		d.Cmp = func(a, b string) int { return cmp.Compare(a, b) * (1<<40 + 7) }
+		d.Cmp = func(a, b string) int { return cmp.Compare(a, b) * natBig }
 		d.Class = strconv.Quote
 	case "diff": // byte difference at the first differing position, else length difference
 		d.Cmp = strDiff
+		d.Class = strconv.Quote
+	case "ext":
+		d.Cmp = func(a, b string) int { return extCmp(cmp.Compare(a, b)) }
 		d.Class = strconv.Quote
 	case "len":
 		d.Cmp = func(a, b string) int { return cmp.Compare(len(a), len(b)) }
@@ -192,9 +214,11 @@ func itemDom(n int, cmpName string) *Dom[Item] {
 	case "rev":
 		d.Cmp = func(a, b Item) int { return cmp.Compare(b.P, a.P) }
 	case "natbig":
-		d.Cmp = func(a, b Item) int { return cmp.Compare(a.P, b.P) * (1<<40 + 7) }
+		d.Cmp = func(a, b Item) int { return cmp.Compare(a.P, b.P) * natBig }
 	case "diff":
 		d.Cmp = func(a, b Item) int { return intDiff(a.P, b.P) * 40 }
+	case "ext":
+		d.Cmp = func(a, b Item) int { return extCmp(cmp.Compare(a.P, b.P)) }
 	default:
 		panic("unknown item comparator " + cmpName)
 	}
@@ -242,11 +266,30 @@ func fstr(f float64) string {
 	return strconv.FormatFloat(f, 'g', -1, 64)
 }
 
-func floatDom(n int, cmpName string, off int) *Dom[float64] {
+// floatTotal is a sign-aware total order (-0 before +0, NaN first): legal, and it disagrees with ==.
+func floatTotal(a, b float64) int {
+	if c := cmp.Compare(a, b); c != 0 {
+		return c
+	}
+	return cmp.Compare(b2i(math.Signbit(b)), b2i(math.Signbit(a)))
+}
+
+func b2i(b bool) int {
+	if b {
+		return 1
+	}
+	return 0
+}
+
+func floatDom(n int, cmpName string, off int, noNaN bool) *Dom[float64] {
 	d := &Dom[float64]{Elem: "float", CmpName: cmpName, Str: fstr}
 	for i := 0; i < n; i++ {
 		if i < n/2+1 && i < len(specialFloats) {
-			d.Tab = append(d.Tab, specialFloats[(i+off)%len(specialFloats)])
+			v := specialFloats[(i+off)%len(specialFloats)]
+			if noNaN && v != v {
+				v = 3.25 // the families whose models compare elements with == do without NaN
+			}
+			d.Tab = append(d.Tab, v)
 		} else {
 			d.Tab = append(d.Tab, float64(i-n/2)*2.5)
 		}
@@ -264,11 +307,17 @@ func floatDom(n int, cmpName string, off int) *Dom[float64] {
 		d.Ordered = true
 	case "rev":
 		d.Cmp = func(a, b float64) int { return cmp.Compare(b, a) }
+	case "total":
+		d.Cmp = floatTotal
+		cls = fstr
 	default:
 		panic("unknown float comparator " + cmpName)
 	}
 	d.Class = cls
 	d.Probes = []float64{-1e300, 1e300, 0.25, -0.25, math.NaN(), 7.75}
+	if noNaN {
+		d.Probes[4] = 9.125
+	}
 	return d
 }
 
